@@ -256,7 +256,10 @@ def cfg(spec: dict) -> str:
     if f == "spc":
         return "k=1" if spec["k"] == 1 else "k>=2"
     if f == "rm":
-        return "r=0" if spec["r"] == 0 else ("r=m-1" if spec["r"] == spec["m"] - 1 else "1<=r<m-1")
+        import math
+
+        big = ",k>20" if sum(math.comb(spec["m"], i) for i in range(spec["r"] + 1)) > 20 else ""
+        return ("r=0" if spec["r"] == 0 else ("r=m-1" if spec["r"] == spec["m"] - 1 else "1<=r<m-1")) + big
     if f == "cyclic":
         return f"src={spec['src']},info={spec['info_kind']}"
     if f == "cyclic_std":
